@@ -238,6 +238,83 @@ func c07scenario(who string, nreq, dups int, immediate bool, cancelPct, abandonP
 		atomic.LoadInt64(&responses), foreign, getset, pending, senderr)
 }
 
+// c07reuse: a multi-step history with a re-used id. Request A (id X) is answered; request B re-uses X and is
+// pending; A's context is cancelled (the usual deferred cancel()) - its clean-up must not remove B's entry; then
+// the response to B arrives: B's caller gets it, exactly once, and it does not go to the ordinary routes.
+func c07reuse(who string, settleMs int) string {
+	st := newStub(nil)
+	router := xmpp.NewRouter()
+	var ordinary int64
+	router.NewRoute().HandlerFunc(func(s xmpp.Sender, p stanza.Packet) {
+		if iq, ok := p.(*stanza.IQ); ok && (iq.Type == stanza.IQTypeResult || iq.Type == stanza.IQTypeError) {
+			atomic.AddInt64(&ordinary, 1)
+		}
+	})
+	var sender interface {
+		SendIQ(ctx context.Context, iq *stanza.IQ) (chan stanza.IQ, error)
+	}
+	var asSender xmpp.Sender
+	if who == "component" {
+		comp, _ := xmpp.NewComponent(xmpp.ComponentOptions{Domain: "c.localhost", Secret: "s"}, router, func(error) {})
+		xmpp.VerifSetComponentTransport(comp, st)
+		sender, asSender = comp, comp
+	} else {
+		client, err := newStubClient(&xmpp.Config{Jid: "u@localhost/r", Credential: xmpp.Password("p")}, router, nil, st)
+		if err != nil {
+			return "newclient-failed"
+		}
+		client.Session = &xmpp.Session{}
+		sender, asSender = client, client
+	}
+	panics := 0
+	route := func(id string) {
+		defer func() {
+			if r := recover(); r != nil {
+				panics++
+			}
+		}()
+		xmpp.VerifRoute(router, asSender, &stanza.IQ{Attrs: stanza.Attrs{Type: "result", Id: id, From: "srv"}})
+	}
+	mkreq := func() *stanza.IQ {
+		iq, _ := stanza.NewIQ(stanza.Attrs{Type: stanza.IQTypeGet, Id: "X", To: "srv"})
+		iq.Payload = &stanza.Version{}
+		return iq
+	}
+	read := func(ch chan stanza.IQ) int {
+		n := 0
+		timeout := time.After(300 * time.Millisecond)
+		for {
+			select {
+			case _, ok := <-ch:
+				if !ok {
+					return n
+				}
+				n++
+			case <-timeout:
+				return n
+			}
+		}
+	}
+	ctxA, cancelA := context.WithCancel(context.Background())
+	chA, err := sender.SendIQ(ctxA, mkreq())
+	if err != nil {
+		return "senderr"
+	}
+	route("X")
+	a := read(chA)
+	ctxB, cancelB := context.WithCancel(context.Background())
+	defer cancelB()
+	chB, err := sender.SendIQ(ctxB, mkreq())
+	if err != nil {
+		return "senderr"
+	}
+	cancelA()
+	time.Sleep(time.Duration(settleMs) * time.Millisecond)
+	route("X")
+	b := read(chB)
+	return fmt.Sprintf("a=%d b=%d ordinary=%d panics=%d", a, b, atomic.LoadInt64(&ordinary), panics)
+}
+
 func indexOf(s, sub string) int {
 	for i := 0; i+len(sub) <= len(s); i++ {
 		if s[i:i+len(sub)] == sub {
@@ -250,6 +327,11 @@ func indexOf(s, sub string) int {
 func (c07) Exec(c Case) []string {
 	var obs []string
 	for _, op := range c.Ops {
+		if op[0] == "reuse" && len(op) == 3 {
+			ms, _ := strconv.Atoi(op[2])
+			obs = append(obs, c07reuse(op[1], ms))
+			continue
+		}
 		if op[0] != "scen" || len(op) != 9 {
 			obs = append(obs, "bad-op")
 			continue
@@ -284,6 +366,13 @@ func (c07) Generate(rng *rand.Rand, tier string, st *Stats) []Case {
 	mk("client", 8, 4, false, 0, 0, false)  // duplicates from several goroutines
 	mk("client", 8, 1, false, 100, 100, false) // cancelled and abandoned: late responses must not block
 	mk("component", 8, 3, false, 50, 50, false)
+	for _, who := range []string{"client", "component"} {
+		for _, ms := range []int{0, 1, 20} {
+			cases = append(cases, Case{ID: fmt.Sprintf("c07-%d", n), Ops: [][]string{{"reuse", who, strconv.Itoa(ms)}}})
+			n++
+			st.Inc("reuse_id_after_answer")
+		}
+	}
 	R := 40
 	if tier == "thorough" {
 		R = 600
